@@ -20,6 +20,7 @@ RULE = ("stream 'isspace': every code point < 0x3100 (+ samples above): Python's
         "the loaded configuration must equal the saved one, keys byte-identical. stream 'crash': the real save runs in a forked child that is "
         "killed before every traced file operation (also with a torn write); the parent must load the previous or the new configuration; the "
         "file's state is compared with the model run over the regenerated trace. distinct = distinct case.")
+RULE += (" Route 'profile-inplace': the configuration object obtained from the profile is changed in place and handed back to write_config (as the noise layer does).")
 ASSUMPTIONS = ["json.loads(json.dumps(d)) == d and base64 decode∘encode = id (stdlib)", "open(..,'w') truncates at open; os.replace is atomic; a killed process "
                "loses nothing that was written (no power loss)", "key=value format: values without '#', ';', line breaks or surrounding blanks (the property's restriction)"]
 
@@ -127,7 +128,7 @@ def cases(chk):
     yield "isspace", {"lo": 0, "hi": 0x3100}
     yield "isspace", {"lo": 0xFE00, "hi": 0xFF10}
     for fmt in ("json", "keyval"):
-        for how in ("path-ext", "path-noext", "profile", "fresh-profile", "dest", "profile-resave"):
+        for how in ("path-ext", "path-noext", "profile", "fresh-profile", "dest", "profile-resave", "profile-inplace"):
             yield "config", {"fmt": fmt, "how": how, "cfg": {"phone": "491234", "cc": 49, "client_static_keypair": "11" * 64, "pushname": "yo"}}
     yield "config", {"fmt": "keyval", "how": "profile-libsave", "cfg": {"phone": "491234", "cc": 49, "pushname": "yo"}}
     yield "config", {"fmt": "json", "how": "profile-libsave", "cfg": {"phone": "491234", "cc": 49, "pushname": "yo"}}
@@ -183,7 +184,7 @@ def cases(chk):
                 yield "config", {"fmt": fmt, "how": how, "cfg": cfg}
     for _ in range(chk.scale(200, 6000)):
         fmt = r.choice(["json", "keyval"])
-        how = r.choice(["path-ext", "path-noext", "profile", "fresh-profile", "dest", "profile-resave", "profile-both"])
+        how = r.choice(["path-ext", "path-noext", "profile", "fresh-profile", "dest", "profile-resave", "profile-both", "profile-inplace"])
         # (a profile holding both files is saved in whichever format the library prefers: values from the key=value format's domain)
         yield "config", dict({"fmt": fmt, "how": how, "cfg": gen_config(r, "keyval" if how == "profile-both" else fmt)}, **({"via": r.choice(["profile", "manager"])} if how == "profile-both" else {}))
 
@@ -283,6 +284,26 @@ def run_config(chk, case):
             with open(os.path.join(pdir, "config" + ext), "w") as f:
                 f.write(cm.config_to_str(oldcfg, stype))
             YowProfile(name).write_config(cfg)
+            loaded = YowProfile(name).config
+        elif how == "profile-inplace":
+            # what the library itself does when it learns something (the noise layer: the server's key): take the profile's configuration object,
+            # change it IN PLACE, hand the same object back to write_config; a fresh load must show the change
+            from yowsup.profile.profile import YowProfile
+            os.makedirs(pdir, exist_ok=True)
+            oldcfg = build_config({"phone": "491111", "cc": 49, "client_static_keypair": "aa" * 64, "pushname": "old"})
+            with open(os.path.join(pdir, "config" + ext), "w") as f:
+                f.write(cm.config_to_str(oldcfg, stype))
+            prof = YowProfile(name)
+            held = prof.config
+            for k_, v_ in vars(cfg).items():
+                try:
+                    setattr(held, k_.lstrip("_"), v_)
+                except Exception:
+                    vars(held)[k_] = v_
+            for k_ in list(vars(held)):
+                if k_ not in vars(cfg):
+                    del vars(held)[k_]
+            prof.write_config(held)
             loaded = YowProfile(name).config
         elif how == "profile-both":
             # a profile that holds a file in BOTH formats (left by an earlier library version, or by an explicit save in the other format), then
